@@ -163,7 +163,7 @@ pub fn run_substring(g: &Group, gi: usize, combo: (i64, Option<u64>), coi: usize
         let res = catch(|| substring(col.arr.as_ref(), start, length));
         st.add("substring", col.len() as u64, 0);
         let problem: Option<(String, String)> = match res {
-            Err(p) => Some((p.fingerprint(), format!("panic {p:?}"))),
+            Err(p) => Some((crate::util::pfp(&p), format!("panic {p:?}"))),
             Ok(Err(e)) => {
                 if visible_invalid {
                     st.outcome("substring:error-on-cut-inside-char");
@@ -302,7 +302,7 @@ pub fn run_fsb(cols: &[FsbCol], combo: (i64, Option<u64>), coi: usize, st: &mut 
         let res = catch(|| substring(col.arr.as_ref(), start, length));
         st.add("substring-fixedsizebinary", col.rows.len() as u64, (col.width > 0) as u64);
         let problem: Option<(String, String)> = match res {
-            Err(p) => Some((p.fingerprint(), format!("panic {p:?}"))),
+            Err(p) => Some((crate::util::pfp(&p), format!("panic {p:?}"))),
             Ok(Err(er)) => Some(("unexpected-error".into(), format!("Err({er})"))),
             Ok(Ok(out)) => (|| {
                 if let Err(er) = out.to_data().validate_full() {
@@ -358,7 +358,7 @@ pub fn run_by_char(table: &[Vec<u8>], cols: &[Col], combo: (i64, Option<u64>), c
         });
         st.add("substring_by_char", col.len() as u64, 0);
         let problem: Option<(String, String)> = match res {
-            Err(p) => Some((p.fingerprint(), format!("panic {p:?}"))),
+            Err(p) => Some((crate::util::pfp(&p), format!("panic {p:?}"))),
             Ok(Err(e)) => Some(("unexpected-error".into(), format!("Err({e})"))),
             Ok(Ok(out)) => (|| {
                 if let Err(e) = out.to_data().validate_full() {
@@ -404,7 +404,7 @@ pub fn run_length(table: &[Vec<u8>], col: &Col, ci: usize, st: &mut Stats, order
         let res = catch(|| if which == 0 { length(col.arr.as_ref()) } else { bit_length(col.arr.as_ref()) });
         st.add(name, col.len() as u64, col.rows.iter().filter(|r| r.is_some_and(|h| !table[h as usize].is_empty())).count() as u64);
         let problem: Option<(String, String)> = match res {
-            Err(p) => Some((p.fingerprint(), format!("panic {p:?}"))),
+            Err(p) => Some((crate::util::pfp(&p), format!("panic {p:?}"))),
             Ok(Err(e)) => Some(("unexpected-error".into(), format!("Err({e})"))),
             Ok(Ok(out)) => (|| {
                 if let Err(e) = out.to_data().validate_full() {
